@@ -22,6 +22,8 @@ class Edit:
         self.new_tokens: tuple = ()  # tokens that take its place
         self.core = None  # (start_byte, end_byte) of the addressed binding / let head in before
         self.why = None  # reason the edit cannot be located (skip)
+        self.closing = None  # (token index, tokens) inserted behind the target (closing parenthesis)
+        self.alt_drop = None  # token indices of a parenthesis pair that may disappear together with the let
 
 
 def _tok_range(starts, ends, s, e):
@@ -93,10 +95,14 @@ def locate(st) -> Edit:
 
     if kind == "create_layer":
         tgt = dec.shape.target
-        k, _ = _tok_range(starts, ends, tgt.start_byte, tgt.end_byte)
+        k, k_end = _tok_range(starts, ends, tgt.start_byte, tgt.end_byte)
         ed.i = ed.j = k
         bt = binding_tokens(segs, value_text, info.get("created", 0), False)
         ed.new_tokens = ("let",) + bt + ("in",)
+        if dec.shape.kinds()[-1:] == ["call"]:
+            # a let in argument position needs parentheses: `f (let … in { … })`
+            ed.new_tokens = ("(",) + ed.new_tokens
+            ed.closing = (k_end, (")",))
         return ed
     if kind == "drop_layer":
         let = container
@@ -106,6 +112,11 @@ def locate(st) -> Edit:
         ed.i, ed.j = i, j
         inn = _close_token(let)
         ed.core = (let.start_byte, inn.end_byte)
+        par = let.parent
+        if par is not None and par.type == "parenthesized_expression" and par.parent is not None and par.parent.type == "apply_expression" and len(layers) == 1:
+            # `f (let … in { … })`: with the only layer gone the parentheses are no longer needed
+            pi, pj = _tok_range(starts, ends, par.start_byte, par.end_byte)
+            ed.alt_drop = (pi, pj - 1)  # token indices of "(" and ")"
         return ed
 
     # walk down explicit sets
@@ -169,6 +180,15 @@ def check_step(st, *, canonical: bool):
     new = list(ed.new_tokens)
     m = len(new)
     expected = bt[:i] + new + bt[j:]
+    if ed.closing is not None:
+        ci, ctoks = ed.closing
+        expected = bt[:i] + new + bt[j:ci] + list(ctoks) + bt[ci:]
+        canonical = False  # the body moves into parentheses and is re-indented: token and comment clauses only
+    if at != expected and ed.alt_drop is not None:
+        po, pc = ed.alt_drop
+        alt = [t for k, t in enumerate(bt) if not (i <= k < j) and k not in (po, pc)]
+        if at == alt:
+            return [("skip", "parens_removed_with_layer")]
     if at != expected:
         # find first difference for the message
         k = 0
@@ -193,7 +213,13 @@ def check_step(st, *, canonical: bool):
         if a < i:
             must.append((text, (a,), "before"))
         elif a > j:
-            must.append((text, (a - (j - i) + m,), "after"))
+            shift = a - (j - i) + m
+            if ed.closing is not None and a >= ed.closing[0]:
+                extra = len(ed.closing[1])
+                # a comment right behind the target may end up inside or outside the new parenthesis
+                must.append((text, (shift + extra,) if a > ed.closing[0] else (shift, shift + extra), "after"))
+            else:
+                must.append((text, (shift,), "after"))
         elif i < a < j:
             optional.append(text)
         elif ed.kind in ("insert", "create_layer"):
